@@ -171,4 +171,22 @@ PROPS = {
                 "limit within +-1 of a size, truncation, carry-over into a call, or >=2 messages with a split inside a message; distinct = the full abstract case.",
         "assumptions": ["limit >= 1", "JSON inputs are brace-balanced objects produced by WriteNext of valid JSON (the codec documents that it does not validate)"],
     },
+    "C06": {
+        "pkg": "c06",
+        "stages": [{"run": "^TestProp$", "quick": (3000, 4), "thorough": (40000, 16)},
+                   {"run": "^TestPropWS$", "quick": (150, 2), "thorough": (1500, 8)}],
+        "technique": "property-based testing (rapid): generated message sequences x transport x codec x compression x read partition x truncation offset, recording handlers and independent frame/JSON/varint decoders as oracle",
+        "level_text": "Generated-input search over client-, server- and bidi-streaming calls on gRPC, gRPC-web (binary/text), HTTP JSON, HTTP length-delimited protobuf, "
+                      "HttpBody chunk framing (and WebSocket over a real connection): the handler's received sequence and terminal error and the client's decoded "
+                      "reply sequence and final status must equal the scripted ones for every read partition and truncation point. Exploration only.",
+        "level_note": "In-process transports use httptest recorders and a scripted reader; streaming HTTP requests are sent with unknown Content-Length (as a streaming client does).",
+        "rule": "rapid draws shape (client/server/bidi, HttpBody upload/download), transport, gzip (per-message or Content-Encoding), 0-8 (thorough 0-24) messages and replies from the "
+                "universe generator incl. empty messages, uploads around multiples of the chunk size, ping-pong or batch reply discipline, a read partition (unconstrained, byte-wise, "
+                "1-10 drawn chunks; final chunk with or without EOF), an optional truncation offset and an optional failing final status. Non-trivial = >=2 messages with a split inside a "
+                "message/frame header, truncation strictly inside a message, an upload within +-1 of a chunk multiple, or >=2 replies; distinct = the abstract case.",
+        "assumptions": [
+            "on plain HTTP an error after the first reply cannot change the status line; there only the replies already sent are compared",
+            "for gzip request bodies cut short only 'a prefix of the messages, then a non-EOF error' is asserted",
+        ],
+    },
 }
